@@ -228,3 +228,28 @@ fn pz_q_inside_collection() {
 	kani::cover!(poisoned, "poisoned");
 	kani::cover!(!poisoned, "clean");
 }}
+
+vharness! {
+fn pz_q_lock_reports_poison_that_happened_while_waiting() {
+	// another thread holds the lock and may panic (poisoning it) while this thread is blocked in lock()/read():
+	// the result must reflect the poison state at the time the lock is ACQUIRED
+	let pz = PM::new(new_m(0, 1));
+	let pr = PR::new(new_rw(1, 2));
+	let which: bool = kani::any();
+	let key = ThreadKey::get().unwrap();
+	if which {
+		mraw(pp::inner(&pz)).other.set(EXCL);
+		w().env_poison_flag = pp::flag_addr(&pz);
+		let r = pz.lock(key);
+		assert!(r.is_err() == w().env_poisoned, "C10_lock_reports_a_panic_that_unwound_while_this_thread_was_waiting");
+		assert!(r.is_err() == pz.is_poisoned(), "C10_lock_reports_err_iff_poisoned");
+	} else {
+		rraw(pp::inner(&pr)).other.set(EXCL);
+		w().env_poison_flag = pp::flag_addr(&pr);
+		let r = pr.read(key);
+		assert!(r.is_err() == w().env_poisoned, "C10_read_reports_a_panic_that_unwound_while_this_thread_was_waiting");
+	}
+	kani::cover!(w().env_poisoned && which, "poisoned_while_waiting_lock");
+	kani::cover!(w().env_poisoned && !which, "poisoned_while_waiting_read");
+	kani::cover!(!w().env_poisoned, "holder_released_normally");
+}}
